@@ -923,8 +923,14 @@ impl ParserListener for Screen {
             self.dirty.extend(self.cursor.y..self.lines);
             for y in (self.cursor.y as u32..=bottom as u32).rev() {
                 if y + count <= bottom as u32 {
-                    if let Some(line) = self.buffer.remove(&y) {
-                        self.buffer.insert(y + count, line);
+                    match self.buffer.remove(&y) {
+                        Some(line) => {
+                            self.buffer.insert(y + count, line);
+                        }
+                        // a never-written source row is blank
+                        None => {
+                            self.buffer.remove(&(y + count));
+                        }
                     }
                 } else {
                     self.buffer.remove(&y);
@@ -946,8 +952,14 @@ impl ParserListener for Screen {
             self.dirty.extend(self.cursor.y..self.lines);
             for y in self.cursor.y..=bottom {
                 if y + count <= bottom {
-                    if let Some(line) = self.buffer.remove(&(y + count)) {
-                        self.buffer.insert(y, line);
+                    match self.buffer.remove(&(y + count)) {
+                        Some(line) => {
+                            self.buffer.insert(y, line);
+                        }
+                        // a never-written source row is blank
+                        None => {
+                            self.buffer.remove(&y);
+                        }
                     }
                 } else {
                     self.buffer.remove(&y);
